@@ -112,8 +112,10 @@ def contract_violations(cfg, script, res):
     return sorted(set(bad))
 
 
-def cases_file(cases):
-    """cases: list of (cfg, script, obs_text)."""
+def cases_file(cases, with_agree=True):
+    """cases: list of (cfg, script, obs_text).  with_agree adds the literal equality lemma (vm_compute reifies both sides:
+    for histories of hundreds of steps the unary state lineages make that normal form gigabytes large, so long shards state
+    only the equivalent boolean form `failing = []`, which is decided inside the VM)."""
     rows = []
     for cfg, script, obs in cases:
         rows.append("  (Build_cfg %d %d %d, %s, %s : obs)" % (cfg[0], cfg[1], cfg[2], coq_list(script, coq_loss), obs))
@@ -124,8 +126,8 @@ def cases_file(cases):
         "Definition failing := Eval vm_compute in failing_from 0 cases.\n"
         "Print failing.\n"
         "Lemma none_failing : failing = []. Proof. reflexivity. Qed.\n"
-        "Lemma all_agree : map (fun x => observe (fst (fst x)) (snd (fst x))) cases = map snd cases.\n"
-        "Proof. vm_compute. reflexivity. Qed.\n"
+        + ("Lemma all_agree : map (fun x => observe (fst (fst x)) (snd (fst x))) cases = map snd cases.\n"
+           "Proof. vm_compute. reflexivity. Qed.\n" if with_agree else "")
     )
 
 
@@ -207,7 +209,7 @@ def run(ck):
     ck.log("enumerated %d complete histories (exhaustive over the alphabet: %s)" % (len(enumerated), complete))
 
     n_rand = 150 if quick else 2000
-    max_cfg = (3, 12, 4) if quick else (3, 200, 50)
+    max_cfg = (3, 12, 4) if quick else (3, 40, 12)   # (unary state lineages make longer histories gigabytes large inside Coq)
     rand_cases = [(c, lr, s) for (c, lr, s) in CORPUS] + synth_paths(rng, n_rand, (3, 6, 3))
     long_cases = synth_paths(rng, 40 if quick else 400, max_cfg)
     # long histories need long scripts
@@ -262,7 +264,7 @@ def run(ck):
     def flush():
         if chunk:
             name = "c14_%03d" % len(files)
-            files[name] = cases_file([(c[1], c[3], c[5]) for c in chunk])
+            files[name] = cases_file([(c[1], c[3], c[5]) for c in chunk], with_agree=all(len(c[3]) <= 40 for c in chunk))
             shard_cases[name] = list(chunk)
     for c in coq_cases:
         wgt = len(c[3]) + 20
@@ -297,7 +299,7 @@ def run(ck):
     ck.extra["traces_validated_against_impl"] = len(coq_cases)
 
     ck.trusted += [
-        "Coq 8.16.1 kernel (coqc); vm_compute for the correspondence equalities; no native_compute",
+        "Coq 8.16.1 kernel (coqc); vm_compute for the correspondence equalities (long shards state the boolean form failing_from 0 cases = [], proved to imply the literal equality: Proofs/SviLoopProofs.v failing_from_nil_all_agree); no native_compute",
         "hand-written model coq/Model/SviLoop.v of train_numpyro_svi_early_stop, tied to the code only by this run's correspondence",
         "stand-in SVI object (corr/impl_c14.py): state = lineage of update-call ids; learning rates read from the optimizer objects the routine installs; JAX jit assumed semantics-preserving for the loop's Python control flow",
         "finite losses are integer-valued floats; -inf, +inf, NaN compared with IEEE semantics",
